@@ -1,5 +1,55 @@
-(* C14 — placeholder until the engine theorems are added below. *)
-From WF Require Import model.Base model.EngineBase model.Engine.
-Theorem C14_emit_dead_silent : forall t s, o_dead s = true -> emit t s = (Ok tt, s).
-Proof. intros t s H. unfold emit. now rewrite H. Qed.
-Print Assumptions C14_emit_dead_silent.
+(* C14 — run-state hooks fire at least once per entry and only for their own state. Property theorems only. *)
+From WF Require Import model.Base model.RunState model.Routing model.Graph model.EngineBase model.Engine model.Monitors
+  proofs.EngineInv proofs.EngineTokens proofs.EngineProps proofs.HandlerFacts proofs.Delivery proofs.DeliveryProps.
+
+(* AT LEAST ONCE, for every configuration and every history (any faults, crashes at every call of the hook consumer,
+   lease revocations, rewinds, duplicated deliveries; [hist_ok]: no stale read, clock steps >= 0).
+   Each time a write makes a run Paused, Cancelled or Completed (the k-th committed write [r]), and for the hook consumer
+   of that state: the announcement is still in the outbox; or it is in the log at or after the consumer's committed
+   position (it will be delivered — again, if the hook failed or the instance crashed before the Ack); or the hook was
+   invoked with that run and returned nil; or the run's data had been deleted when the consumer read it. *)
+Theorem C14_at_least_once : forall c ops, hist_ok ops ->
+  forall k r q,
+  nth_error (w_hist (fst (run_ops c ops))) k = Some r -> r_state r = q -> (q = RSPaused \/ q = RSCancelled \/ q = RSCompleted) ->
+  In (route (N.of_nat k + 1)%N r) (w_outbox (fst (run_ops c ops))) \/
+  (exists j e, nth_error (w_log (fst (run_ops c ops))) j = Some e /\ ev_of e (route 0%N r) /\
+               (get_cursor (fst (run_ops c ops)) (EHook q) <= j)%nat) \/
+  (exists r' pers now, In (TUser (UFHook q) r' pers now UOk) (snd (run_ops c ops)) /\ r_run r' = r_run r) \/
+  (exists r', In (TLookup KLK (Z.of_N (r_run r)) ROk (Some r')) (snd (run_ops c ops)) /\ r_obj r' = ODeleted).
+Proof. exact hook_at_least_once. Qed.
+Print Assumptions C14_at_least_once.
+
+(* a hook consumer's committed position moves past an event of its state only when the handler returned nil on it (no
+   hypothesis on the history) *)
+Theorem C14_not_lost : forall c ops q j e,
+  (j < get_cursor (fst (run_ops c ops)) (EHook q))%nat -> nth_error (w_log (fst (run_ops c ops))) j = Some e ->
+  e_topic e = TRunStateChange -> e_state e = rs_code q -> has_wit (EHook q) e (snd (run_ops c ops)).
+Proof.
+  intros c ops q j e Hj He Ht Hs. apply (position_never_passes_unhandled c ops (EHook q) j e Hj He Ht).
+  cbn. unfold filter_by_state. rewrite Hs, Z.eqb_refl. reflexivity.
+Qed.
+Print Assumptions C14_not_lost.
+
+(* RE-INVOKED UNTIL NIL: a failing hook (or any failing call of the consumer) ends the operation without an Ack, for every state *)
+Theorem C14_failure_not_acked : forall c inst q idx e s x s1,
+  unit_filter (EHook q) e = false -> unit_handler c inst (EHook q) e s = (Err x, s1) -> after_lag c inst (EHook q) idx e s = (Err x, s1).
+Proof. intros c inst q. exact (after_lag_handler_failed c inst (EHook q)). Qed.
+Print Assumptions C14_failure_not_acked.
+
+(* ONLY ITS OWN STATE: an event that records any other run state is acknowledged without the hook being invoked, for every state *)
+Theorem C14_only_own_state : forall c inst q idx e s,
+  e_state e <> rs_code q -> after_lag c inst (EHook q) idx e s = (p_ack (EHook q) idx e ;;; ret PRun) s.
+Proof.
+  intros c inst q idx e s H. apply after_lag_filtered. cbn. unfold filter_by_state.
+  destruct (e_state e =? rs_code q) eqn:E; [apply Z.eqb_eq in E; contradiction|reflexivity].
+Qed.
+Print Assumptions C14_only_own_state.
+
+(* and every event in the log records the state of the write that produced it *)
+Theorem C14_event_state_of_write : forall c ops, hist_ok ops -> forall e, In e (w_log (fst (run_ops c ops))) ->
+  exists r, In r (w_hist (fst (run_ops c ops))) /\ e_state e = rs_code (r_state r) /\ e_run e = r_run r.
+Proof.
+  intros c ops H e He. destruct (p_nothing_invented c ops H e He) as (r & Hr & Ev). exists r. split; [exact Hr|].
+  destruct Ev as (_ & _ & E3 & _ & _ & E6 & _). cbn in E3, E6. auto.
+Qed.
+Print Assumptions C14_event_state_of_write.
